@@ -1,31 +1,34 @@
 """Small helper routines that do raw 64-bit arithmetic on field representations inside code the bounded-shape tiers interpret
-(an "exact division by 2^k" in the last inverse stage, a hand-written reduction in a sponge ...).
+(an "exact division by 2^k" in the last inverse stage, a hand-written butterfly, a hand-written reduction in a sponge ...).
 
 The bounded tiers work on residue normal forms and cannot follow raw integer arithmetic on a representation.  When such a
-helper is met (Interp option `raw_helper`), it is decided on its own in kernel mode, for ALL 64-bit representations of its
-operands, against a specification inferred from the helper itself:
+helper is met (Interp option `raw_helper`), it is decided on its own in kernel mode, for ALL representations its operands may
+have at the call (their typestates), against a specification inferred from the helper itself:
 
   1. the helper is evaluated (constant propagation, no symbolic data) at every 0/1 assignment of its Element operands; that fixes
-     the one multilinear polynomial over F_p that agrees with it there;
+     the one multilinear polynomial over F_p (per output) that agrees with it there;
   2. kernel mode proves  output == that polynomial (mod p)  for all representations, or produces a witness.
 
 Proved: the bounded tier continues with the polynomial as the helper's summary (the transform's own specification then decides
 whether that is the right function).  Witness: the tier continues with the polynomial as well and the finding is kept on the
 interpreter; if the surrounding computation then meets its specification *with the polynomial*, the helper deviates from what the
-specification needs at the witness operand - a refutation at contract level (the operand is a value the callee contracts of the
-producers allow, e.g. a non-canonical sum of Goldilocks::add).  Anything else: ANALYSIS-INCOMPLETE, as before."""
+specification needs at the witness operand - a refutation at contract level (the operand is a value the contracts of the
+producers allow, e.g. a non-canonical sum of Goldilocks::add).  Anything else: ANALYSIS-INCOMPLETE, as before.
+
+Operands: Element& / Element* parameters (8-byte cells; pointers to the same cell are one operand) and Element parameters passed
+by value (an i64 that carries a field value at the call).  Every other argument must be a concrete integer at the call."""
 import itertools
 from .interp import Interp, Region, Ptr, Incomplete, Sink
 from .ir import IRError
-from .poly import Poly, FV, P, as_poly
+from .poly import Poly, FV, P, as_poly, M32
 
 ELEM_PTR = ('p', ('s', '%"struct.Goldilocks::Element"'))
 _cache = {}
 MAX_INSTR = 250
+MAX_OPERANDS = 4
 
 
 def candidate(mod, name, fn, args):
-    """a small library routine whose pointer parameters are all Element* / Element& and whose other parameters are concrete"""
     k = ('cand', id(mod), name)
     c = _cache.get(k)
     if c is None:
@@ -36,78 +39,107 @@ def candidate(mod, name, fn, args):
             f = None
         if f and '/src/' in f:
             ptrs = [t for t, pn in fn.params if t[0] == 'p']
-            if ptrs and all(t == ELEM_PTR for t in ptrs) and 1 <= len(ptrs) <= 4:
+            if all(t == ELEM_PTR for t in ptrs) and len(ptrs) <= MAX_OPERANDS:
                 n = sum(len(fn.blocks[b]) for b in fn.order)
                 c = n <= MAX_INSTR
         _cache[k] = c
     if not c:
         return False
+    nop = 0
     for (t, pn), a in zip(fn.params, args):
         if t[0] == 'p':
             if not isinstance(a, Ptr):
                 return False
+            nop += 1
+        elif isinstance(a, FV):
+            if t != ('i', 64):
+                return False
+            nop += 1
         elif not isinstance(a, int):
             return False
-    return True
+    return 1 <= nop <= MAX_OPERANDS
 
 
-def _evaluate(mod, name, fn, pidx, groups, ints, point):
-    """run the helper on concrete operands -> {group index: value} of the cells it wrote"""
-    I = Interp(mod, {}, {'log_access': True})
-    regs = [Region('h%d' % g, 'param', extent=8, elem='int') for g in range(len(groups))]
-    for g, v in enumerate(point):
-        I.mem[(regs[g], 0)] = (v, 8)
-    args = []
-    for i, (t, pn) in enumerate(fn.params):
+def _operands(fn, args):
+    """-> (operands, ints): operands = list of ('cell', [param indices]) / ('val', [param index]); ints = {param index: int}"""
+    ops = []
+    ints = {}
+    for i, ((t, pn), a) in enumerate(zip(fn.params, args)):
         if t[0] == 'p':
-            g = [k for k, members in enumerate(groups) if i in members][0]
-            args.append(Ptr(regs[g], 0))
+            for kind, members in ops:
+                if kind == 'cell':
+                    b = args[members[0]]
+                    if b.reg is a.reg and as_poly(b.off) == as_poly(a.off):
+                        members.append(i)
+                        break
+            else:
+                ops.append(('cell', [i]))
+        elif isinstance(a, FV):
+            ops.append(('val', [i]))
         else:
-            args.append(ints[i])
+            ints[i] = a
+    return ops, ints
+
+
+def _evaluate(mod, name, fn, ops, ints, point):
+    """run the helper on concrete operands -> {operand index: value} of the cells it wrote"""
+    I = Interp(mod, {}, {'log_access': True})
+    regs = {}
+    args = [None] * len(fn.params)
+    for g, (kind, members) in enumerate(ops):
+        if kind == 'cell':
+            r = Region('h%d' % g, 'param', extent=8, elem='int')
+            regs[g] = r
+            I.mem[(r, 0)] = (point[g], 8)
+            for i in members:
+                args[i] = Ptr(r, 0)
+        else:
+            args[members[0]] = point[g]
+    for i, v in ints.items():
+        args[i] = v
     I.writes = []
-    I.call(name, args)
+    ret = I.call(name, args)
     out = {}
-    for g, r in enumerate(regs):
-        v = I.mem.get((r, 0))
+    for g, r in regs.items():
         if any(w[0] is r for w in I.writes):
+            v = I.mem.get((r, 0))
             if v is None or not isinstance(v[0], int):
                 raise Incomplete('helper output is not a concrete integer at a concrete point')
             out[g] = v[0] % P
+    if isinstance(ret, int) and fn.ret == ('i', 64):
+        out['ret'] = ret % P
     return out
 
 
 def decide(I, name, args):
-    """-> summary function result (None) after writing the outputs, or NotImplemented"""
-    from . import kprove
-    from .kernel import const
+    """-> the helper's return value after writing its outputs, or NotImplemented"""
+    from .contracts import to_fv
     mod = I.mod
     fn = mod.fn(name)
-    pidx = [i for i, (t, pn) in enumerate(fn.params) if t[0] == 'p']
-    # pointer arguments that are the same cell form one operand (in-place call)
-    groups = []
-    for i in pidx:
-        a = args[i]
-        for g in groups:
-            b = args[g[0]]
-            if b.reg is a.reg and as_poly(b.off) == as_poly(a.off):
-                g.append(i)
-                break
+    ops, ints = _operands(fn, args)
+    # typestates of the operands at this call
+    xs = []
+    tss = []
+    for kind, members in ops:
+        if kind == 'cell':
+            try:
+                v = to_fv(I.load_cell(args[members[0]], 8))
+            except Incomplete:
+                v = None        # an output-only cell that holds nothing yet
+            if v is not None and not isinstance(v, FV):
+                return NotImplemented
         else:
-            groups.append([i])
-    ints = {i: a for i, a in enumerate(args) if i not in pidx}
-    key = ('dec', id(mod), name, tuple(sorted(ints.items())), tuple(tuple(g) for g in groups))
+            v = args[members[0]]
+        xs.append(v)
+        tss.append('canon' if (v is not None and v.ts == 'canon') else 'u64')
+    key = ('dec', id(mod), name, tuple(sorted(ints.items())), tuple((k, tuple(m)) for k, m in ops), tuple(tss))
     res = _cache.get(key)
     if res is None:
-        res = _decide(mod, name, fn, pidx, groups, ints)
+        res = _decide(mod, name, fn, ops, ints, tss)
         _cache[key] = res
     kind, outs, coef, info = res
     if kind == 'unknown':
         return NotImplemented
-    # apply the multilinear summary
-    xs = []
-    from .contracts import to_fv
-    for g in groups:
-        xs.append(None)
     vals = {}
     for og in outs:
         acc = Poly()
@@ -115,12 +147,16 @@ def decide(I, name, args):
             term = Poly.const(c)
             for g in S:
                 if xs[g] is None:
-                    xs[g] = to_fv(I.load_cell(args[groups[g][0]], 8)).nf
-                term = term * xs[g]
+                    return NotImplemented      # the helper reads a cell that holds nothing
+                term = term * xs[g].nf
             acc = acc + term
         vals[og] = FV(acc.modp(), 'u64')
+    ret = None
     for og, v in vals.items():
-        I.store_cell(args[groups[og][0]], v, 8)
+        if og == 'ret':
+            ret = v
+        else:
+            I.store_cell(args[ops[og][1][0]], v, 8)
     if kind == 'witness':
         if not hasattr(I, 'helper_findings'):
             I.helper_findings = []
@@ -130,24 +166,23 @@ def decide(I, name, args):
             except Exception:
                 loc = (None, None)
             I.helper_findings.append(dict(name=name, dem=mod.dem.get(name, name), info=info, loc=loc))
-    return None
+    return ret
 
 
-def _decide(mod, name, fn, pidx, groups, ints):
+def _decide(mod, name, fn, ops, ints, tss):
     from . import kprove
-    from .kernel import const
-    n = len(groups)
+    from .kernel import const, BOXES
+    n = len(ops)
     try:
         pts = {}
         outs = None
         for point in itertools.product((0, 1), repeat=n):
-            o = _evaluate(mod, name, fn, pidx, groups, ints, point)
+            o = _evaluate(mod, name, fn, ops, ints, point)
             pts[point] = o
             outs = set(o) if outs is None else (outs | set(o))
         if not outs:
             return ('unknown', None, None, 'the helper writes no Element operand')
-        outs = sorted(outs)
-        # Moebius inversion: coefficients of the multilinear interpolant
+        outs = sorted(outs, key=str)
         coef = {}
         for og in outs:
             cf = {}
@@ -164,14 +199,17 @@ def _decide(mod, name, fn, pidx, groups, ints):
             coef[og] = cf
     except (Incomplete, IRError, Sink, KeyError) as e:
         return ('unknown', None, None, str(e))
-    # kernel-mode proof for all representations
     nargs = len(fn.params)
     alias = {}
-    for g in groups:
-        for i in g[1:]:
-            alias[i] = g[0]
-    in_cells = [(g[0], 0, 'x%d' % k, 'u64') for k, g in enumerate(groups)]
-    out_cells = [(groups[og][0], 0) for og in outs]
+    in_cells = []
+    for g, (kind, members) in enumerate(ops):
+        if kind == 'cell':
+            for i in members[1:]:
+                alias[i] = members[0]
+            in_cells.append((members[0], 0, 'x%d' % g, tss[g]))
+        else:
+            in_cells.append((members[0], None, 'x%d' % g, tss[g]))
+    out_cells = [('ret', 0) if og == 'ret' else (ops[og][1][0], 0) for og in outs]
 
     def mkspec(og):
         def sp(A):
@@ -198,11 +236,11 @@ def _decide(mod, name, fn, pidx, groups, ints):
     if f.get('witness') is None:
         return ('unknown', None, None, 'kernel mode: cell not discharged, no witness: ' + f['detail'][:160])
     w = f['witness']
-    ops = {}
+    opsd = {}
     for k in range(n):
         h, l = w.get('x%dh' % k), w.get('x%dl' % k)
         if h is not None and l is not None:
-            ops['operand %d' % k] = '0x%016x' % ((h << 32) | l)
-    text = '%s: %s; witness %s%s' % (mod.dem.get(name, name).split('(')[0], f['detail'][:200], ops,
+            opsd['operand %d (%s)' % (k, tss[k])] = '0x%016x' % ((h << 32) | l)
+    text = '%s: %s; witness %s%s' % (mod.dem.get(name, name).split('(')[0], f['detail'][:200], opsd,
                                      (' with integer arguments %s' % sorted(ints.values())) if ints else '')
     return ('witness', outs, coef, text)
